@@ -13,6 +13,11 @@ import (
 	"github.com/zitadel/saml/pkg/provider/xml/samlp"
 )
 
+// isXSBooleanTrue reports whether s is a lexical form of the xs:boolean value true
+func isXSBooleanTrue(s string) bool {
+	return s == "true" || s == "1"
+}
+
 func signatureRedirectVerificationNecessary(
 	idpMetadataF func() *md.IDPSSODescriptorType,
 	spMetadataF func() *md.EntityDescriptorType,
@@ -23,8 +28,8 @@ func signatureRedirectVerificationNecessary(
 		spMeta := spMetadataF()
 		idpMeta := idpMetadataF()
 
-		return ((spMeta == nil || spMeta.SPSSODescriptor == nil || spMeta.SPSSODescriptor.AuthnRequestsSigned == "true") ||
-			(idpMeta == nil || idpMeta.WantAuthnRequestsSigned == "true") ||
+		return ((spMeta == nil || spMeta.SPSSODescriptor == nil || isXSBooleanTrue(spMeta.SPSSODescriptor.AuthnRequestsSigned)) ||
+			(idpMeta == nil || isXSBooleanTrue(idpMeta.WantAuthnRequestsSigned)) ||
 			signatureF() != "") &&
 			protocolBinding() == RedirectBinding
 	}
